@@ -446,6 +446,17 @@ func (c *fctx) stmt(s ast.Stmt) []ast.Stmt {
 			}
 			var out []ast.Stmt
 			out = append(out, c.probes(reads)...)
+			if call, ok := rhs.(*ast.CallExpr); ok && len(call.Args) > 0 && !call.Ellipsis.IsValid() || ok && len(call.Args) > 0 {
+				if id, isIdent := call.Fun.(*ast.Ident); isIdent && id.Name == "append" {
+					if loc, label, leaves, sync, ok := c.resolve(call.Args[0]); ok && !sync && leaves == nil {
+						c.in.used = true
+						out = append(out, &ast.ExprStmt{X: &ast.CallExpr{
+							Fun:  &ast.SelectorExpr{X: ast.NewIdent(simrtName), Sel: ast.NewIdent("AppendProbe")},
+							Args: []ast.Expr{loc, &ast.BasicLit{Kind: token.STRING, Value: strconv.Quote(label)}},
+						}})
+					}
+				}
+			}
 			out = append(out, &ast.AssignStmt{Lhs: []ast.Expr{tmp}, Tok: token.DEFINE, Rhs: []ast.Expr{rhs}})
 			out = append(out, c.probes(writes)...)
 			out = append(out, &ast.AssignStmt{Lhs: t.Lhs, Tok: token.ASSIGN, Rhs: []ast.Expr{tmp}})
